@@ -688,6 +688,29 @@ def cstr(s):
     return '"%s"%%string' % s
 
 
+TEXT_FILES = ["component_models/pipe_component.py", "component_models/abstract_models/branch_models.py",
+              "component_models/abstract_models/branch_wo_internals_models.py"]
+
+
+def text_column_sources():
+    """every assignment into the TEXT (ambient temperature) column of a branch pit in the component models:
+    (file, target, right-hand side) as source text - which option source the fallback ambient is read from"""
+    out = []
+    for rel in TEXT_FILES:
+        mod = kernels.get_mod(rel)
+        for n in ast.walk(mod.tree):
+            if isinstance(n, ast.Assign) and len(n.targets) == 1 and isinstance(n.targets[0], ast.Subscript):
+                t = n.targets[0]
+                if isinstance(t.slice, ast.Tuple) and len(t.slice.elts) == 2 and is_name(t.slice.elts[1], "TEXT"):
+                    out.append((rel.split("/")[-1], ast.unparse(t), ast.unparse(n.value)))
+            if isinstance(n, ast.Call) and is_name(n.func, "set_entry_check_repeat") and len(n.args) >= 3 and \
+                    is_name(n.args[1], "TEXT"):
+                out.append((rel.split("/")[-1], "set_entry_check_repeat(TEXT)", ast.unparse(n.args[2])))
+    if not out:
+        raise TranslateError("no assignment into the TEXT column found")
+    return sorted(out)
+
+
 def gen_thermexpr():
     k, wb, wn = thermal_slice()
     kcp = k_branch_cp()
@@ -703,6 +726,9 @@ def gen_thermexpr():
              "   positional: this table pins e.g. that the diameter in the heat-loss term is the column DO, not D) *)",
              "Definition therm_kernel_inputs : list (string * list string) := [%s]." %
              "; ".join("(%s, [%s])" % (cstr(n), "; ".join(cstr(x) for x in l)) for n, l in sig),
+             "(* every assignment into the ambient-temperature column TEXT of a branch pit (file, target, right-hand side) *)",
+             "Definition text_column_sources : list (string * string * string) := [%s]." %
+             "; ".join("(%s, %s, %s)" % (cstr(a), cstr(b), cstr(c.replace('"', "'"))) for a, b, c in text_column_sources()),
              "(* write-back of the kernel outputs in calculate_derivatives_thermal: (pit column, kernel output) *)",
              "Definition therm_wiring_branch : list (string * string) := [%s]." %
              "; ".join("(%s, %s)" % (cstr(c), cstr(v)) for c, v in wb),
